@@ -13,7 +13,7 @@ block = f"{caught} of {len(rows)} seeded changes are reported by at least one ch
 s = re.sub(r"<!-- CATCH-MATRIX-BEGIN -->.*?<!-- CATCH-MATRIX-END -->", "<!-- CATCH-MATRIX-BEGIN -->\n" + block + "<!-- CATCH-MATRIX-END -->", s, flags=re.S)
 lines = ["| entry | file | must fire in | must stay silent in |", "|---|---|---|---|"]
 for e in MUTANTS + REFACTORS:
-  lines.append(f"| {e['id']} | {', '.join(sorted({x['file'].split('/')[-1] for x in e['subs']}))} | {', '.join(e.get('fire', []))} | {', '.join(e.get('silent', []))} |")
+  lines.append(f"| {e['id']} | {', '.join(sorted({x['file'].split('/')[-1] for x in e['subs']})) if 'subs' in e else e['patch']} | {', '.join(e.get('fire', []))} | {', '.join(e.get('silent', []))} |")
 s = re.sub(r"<!-- SELFTEST-CATALOGUE-BEGIN -->.*?<!-- SELFTEST-CATALOGUE-END -->", "<!-- SELFTEST-CATALOGUE-BEGIN -->\n" + "\n".join(lines) + "\n<!-- SELFTEST-CATALOGUE-END -->", s, flags=re.S)
 open(p, "w").write(s)
 print("DESIGN.md blocks refreshed:", caught, "/", len(rows), "caught;", len(MUTANTS), "mutants,", len(REFACTORS), "refactors")
